@@ -25,6 +25,18 @@ type slideIdListXML struct {
 type slideIdXML struct {
 	ID  string `xml:"id,attr"`
 	RID string `xml:"http://schemas.openxmlformats.org/officeDocument/2006/relationships id,attr"` // r:id attribute for relationship
+	// The same attribute in a presentation of the Strict conformance class
+	// (ISO/IEC 29500 Strict), which binds the r prefix to another namespace.
+	RIDStrict string `xml:"http://purl.oclc.org/ooxml/officeDocument/relationships id,attr"`
+}
+
+// relID returns the relationship id of the slide, whichever conformance
+// class the presentation is written in.
+func (s slideIdXML) relID() string {
+	if s.RID != "" {
+		return s.RID
+	}
+	return s.RIDStrict
 }
 
 type slideSzXML struct {
